@@ -113,6 +113,32 @@ def polygon_claims(corners, p, nu, L, tau=2e-4, tol=1e-6):
             ("corner_zone_in_normal_cone", L.And(*cone))]
 
 
+def polygon_on_edges(corners, p, L):
+    """per edge: p lies on the closed segment"""
+    out = []
+    for a, e, n in polygon_frame(corners)[1]:
+        w = [p[0] - a[0], p[1] - a[1]]
+        ee, s = dot(e, e), dot(w, e)
+        out.append(L.And(L.eq(cross2(e, w), 0), L.le(0, s), L.le(s, ee)))
+    return out
+
+
+def on_some_piece(oset, p, prm, L):
+    """p lies EXACTLY on the boundary of one of the primitives the expression is built from: the
+    link between 'what the boundary samplers return' and 'the generic boundary point'"""
+    ev = O._ev
+    if isinstance(oset, O.OInterval):
+        return L.Or(L.eq(p[0], ev(oset.lb, prm)[0]), L.eq(p[0], ev(oset.ub, prm)[0]))
+    if isinstance(oset, O.OBall):
+        c, r = ev(oset.c, prm), ev(oset.r, prm)[0]
+        return L.eq(dot([p[i] - c[i] for i in range(len(c))], [p[i] - c[i] for i in range(len(c))]), r * r)
+    if isinstance(oset, (O.OParallelogram, O.OTriangle)):
+        return L.Or(*polygon_on_edges(oset.corners(prm), p, L))
+    if isinstance(oset, (O.OUnion, O.OCut, O.OInter)):
+        return L.Or(on_some_piece(oset.a, p, prm, L), on_some_piece(oset.b, p, prm, L))
+    raise NotImplementedError(type(oset).__name__)
+
+
 # ---- dispatch on the oracle set ------------------------------------------------
 
 
